@@ -393,6 +393,11 @@ class Tr:
         if cls == "relativedelta": return tx == "RD"
         if cls == "datetime.timedelta": return tx == "TD3"
         if cls == "datetime.date": return tx == "Temporal"
+        if cls == "float":
+            # the translated domain is integer-valued (Int / Optional[int] fields): no value is a float.  Float-valued
+            # fields (and the non-finite rejection of __init__) are covered by C16's executable oracle only.
+            if tx not in ("Int", "OptInt"): raise Untranslatable("isinstance(%s, float)" % tx)
+            return False
         if cls == "datetime.datetime":
             if tx != "Temporal": return False
             return "(RDPy.isDatetime %s = true)" % x
@@ -404,7 +409,16 @@ class Tr:
     # ------------------------------------------------------------------ conditions: Prop text or python bool
     def C(self, e, pre):
         if isinstance(e, ast.BoolOp):
-            vals = [self.C(v, pre) for v in e.values]
+            if isinstance(e.op, ast.And):
+                # Python's `and` does not evaluate what follows a false operand: a STATICALLY false operand (e.g.
+                # `isinstance(x, float)` on the integer domain) ends the translation of the conjunction there
+                vals = []
+                for v in e.values:
+                    c = self.C(v, pre)
+                    vals.append(c)
+                    if c is False: return False
+            else:
+                vals = [self.C(v, pre) for v in e.values]
             if isinstance(e.op, ast.And):
                 if any(v is False for v in vals): return False
                 vals = [v for v in vals if v is not True]
